@@ -117,7 +117,7 @@ func TestVerifC18Reload(t *testing.T) { c18ReloadBody("reload", true) }
 func TestVerifC18ReloadNoHooks(t *testing.T) { c18ReloadBody("reload-nohooks", false) }
 
 func c18ReloadBody(stage string, withHooks bool) {
-	R := vr.New("C18", stage, "an in-process agent (update hooks "+map[bool]string{true: "configured", false: "not configured"}[withHooks]+") receives SIGHUP after its configuration file was replaced by (a) a good configuration with different base directory, default and HMAC keys, (b) documents that do not load (syntax error, unknown key, undefined default, two algorithms, id 0), (c) configurations whose directory fails the consistency check (empty, no admin, both extensions, foreign file, same base directory but the admin's parameter set removed), (d) a good configuration that drops a parameter set; after each reload the configuration actually served is identified from behaviour (where a newly added record lands, which default it names, which HMAC key verifies it; which users authenticate) and must be the complete new one after a good reload and the complete previous one otherwise - never a mixture; the store path handed to the update hooks (hook event and the WHAWTY_AUTH_STORE seen by a real hook script) must never be a directory of a rejected reload; background clients run through all reloads and every request must be answered. Non-trivial: every reload; distinct by (previous configuration, reload kind)")
+	R := vr.New("C18", stage, "an in-process agent (update hooks "+map[bool]string{true: "configured", false: "not configured"}[withHooks]+") receives SIGHUP after its configuration file was replaced by (a) a good configuration with different base directory, default and HMAC keys, (b) documents that do not load (syntax error, unknown key, undefined default, two algorithms, id 0), (c) configurations whose directory fails the consistency check (empty, no admin, both extensions, foreign file, same base directory but the admin's parameter set removed), (d) a good configuration that drops a parameter set, and one that changes only values inside a set (same base directory, default, ids, algorithms); after each reload the configuration actually served is identified from behaviour (where a newly added record lands, which default it names, which HMAC key verifies it; which users authenticate) and must be the complete new one after a good reload and the complete previous one otherwise - never a mixture; the store path handed to the update hooks (hook event and the WHAWTY_AUTH_STORE seen by a real hook script) must never be a directory of a rejected reload; background clients run through all reloads and every request must be answered. Non-trivial: every reload; distinct by (previous configuration, reload kind)")
 	defer R.Write()
 	rng := R.Rand("c18r")
 	verifSetLogging(true)
@@ -371,6 +371,42 @@ func c18ReloadBody(stage string, withHooks bool) {
 			if c18Reload(cfg, c.yaml()) {
 				expectState(id, current, "directory-fails-check:same-base-admin-set-removed")
 			}
+		}
+		// good reload that keeps base directory, default, ids and algorithms and changes only a value inside set 3:
+		// a record hashed with the new value must authenticate afterwards (and no longer after the way back)
+		{
+			id := fmt.Sprintf("r%d/good/values-only", r)
+			R.Mark(id)
+			c := current
+			c.Sets = append([]ref.ParamSet{}, current.Sets...)
+			for i := range c.Sets {
+				if c.Sets[i].ID == 3 {
+					c.Sets[i].Time += 2
+					c.Sets[i].Memory *= 2
+				}
+			}
+			plantIn(rng, c, current.Base, []ovlUser{{Name: "k3", Pw: "k3pw", Set: 3}})
+			if ok, _, _, _ := iface.Authenticate("k3", "k3pw"); ok {
+				R.Violate("c18:reload:record-of-other-parameters-authenticates", "a record hashed with time/memory values that are not configured authenticates", id, nil)
+			}
+			if c18Reload(cfg, c.yaml()) {
+				expectState(id, current, "good:same-base-values-only")
+				R.Count("value_only_reloads", 1)
+				if ok, _, _, _ := iface.Authenticate("k3", "k3pw"); !ok {
+					R.Violate("c18:reload:good:changed-values-not-in-effect", "after a successful reload that changed only time/memory of parameter set 3, a record hashed with the new values does not authenticate: the agent still uses the old values", id, nil)
+				}
+			} else {
+				noReload(id, "good:same-base-values-only")
+			}
+			if c18Reload(cfg, current.yaml()) {
+				expectState(id+"/back", current, "good:same-base-values-back")
+				iface.Update("zz-barrier-nonexistent", "x")                                //nolint:errcheck (FIFO barrier: a queued upgrade of k3 has run)
+				plantIn(rng, c, current.Base, []ovlUser{{Name: "k3", Pw: "k3pw", Set: 3}}) // (a local upgrade may have rewritten it under the default set)
+				if ok, _, _, _ := iface.Authenticate("k3", "k3pw"); ok {
+					R.Violate("c18:reload:good:old-values-not-restored", "after reloading the original values the record hashed with the other values still authenticates", id, nil)
+				}
+			}
+			os.Remove(filepath.Join(current.Base, "k3.user")) //nolint:errcheck
 		}
 		// good reload that drops parameter set 3: its users must become unsupported, everything else complete
 		{
